@@ -113,8 +113,8 @@ def run(ctx):
             flat = [c for t in comps for c in t]
             cw = [c for c in flat if c.op == "call" and B.cname(c) == "BlsSignCrypt::compute_w"]
             okw = bool(cw) and [B.peel(x).a[1] if B.peel(x).op == "param" else None for x in cw[0].a[1]] == ["u", "v", "dst"]
-            neg = [c for c in flat if c.op == "call" and B.cname(c) == "Neg::neg"]
-            okp = any(c.op == "param" and c.a[1] == "w" for c in flat) and any(c.op == "param" and c.a[1] == "u" for c in flat) and len(neg) == 1 and len(comps) == 2
+            # which operand carries the negation (and the order of the pairs) is decided by E5.equation on the bilinear form
+            okp = len(comps) == 2
             ctx.ob("E5.valid", "valid/equation", okw and okp, "pairing input = %s (want {(w, -G), (compute_w(u, v, dst), u)})" % show(strip_sites(T_), 6), where=where(f))
     from . import equations as EQ
 
@@ -162,12 +162,27 @@ def run(ctx):
         ok = ret.op == "agg" and len(ret.a[1]) == 3
         detail = ""
         if ok:
+            from ..core import poly as PL
+            from . import equations as EQ
+
             u, v, w = ret.a[1]
             r = None
-            if u.op == "call" and B.cname(u) == "Mul::mul" and B.peel(u.a[1][0]).op == "call" and B.cname(B.peel(u.a[1][0])) == "Group::generator":
-                r = u.a[1][1]
-            okv = v.op == "call" and B.cname(v) == "BlsSignCrypt::compute_v" and v.a[1][0].op == "call" and B.cname(v.a[1][0]) == "Mul::mul" and B.peel(v.a[1][0].a[1][0]).op == "param" and B.peel(v.a[1][0].a[1][0]).a[1] == "pk" and v.a[1][0].a[1][1] == r
-            okw = w.op == "call" and B.cname(w) == "Mul::mul" and w.a[1][1] == r and w.a[1][0].op == "call" and B.cname(w.a[1][0]) == "BlsSignCrypt::compute_w" and w.a[1][0].a[1][0] == u and B.peel(w.a[1][0].a[1][2]).op == "param" and B.peel(w.a[1][0].a[1][2]).a[1] == "dst" and any(x == v for x in subterms(w.a[1][0].a[1][1]))
+            pu = PL.poly(u, EQ.std_atom())
+            if len(pu) == 1 and list(pu.values()) == [1]:
+                mono = list(pu)[0]
+                rest = [k for k in mono if k != "G"]
+                if len(mono) == 2 and "G" in mono and len(rest) == 1 and not isinstance(rest[0], str):
+                    r = rest[0]
+            at = EQ.std_atom(lambda t: "r" if (r is not None and t == r) else None)
+            okv = v.op == "call" and B.cname(v) == "BlsSignCrypt::compute_v" and PL.named(PL.poly(v.a[1][0], at)) == {("pk", "r"): 1}
+            okw = False
+            pw = PL.poly(w, at)
+            if len(pw) == 1 and list(pw.values()) == [1]:
+                mono = list(pw)[0]
+                cws = [k for k in mono if not isinstance(k, str)]
+                if len(mono) == 2 and "r" in mono and len(cws) == 1 and cws[0].op == "call" and B.cname(cws[0]) == "BlsSignCrypt::compute_w":
+                    cw = cws[0]
+                    okw = PL.named(PL.poly(cw.a[1][0], at)) == {("G", "r"): 1} and B.peel(cw.a[1][2]).op == "param" and B.peel(cw.a[1][2]).a[1] == "dst" and any(x == v for x in subterms(cw.a[1][1]))
             salt = None
             if r is not None and r.op == "call" and B.cname(r) == "HashToScalar::hash_to_scalar":
                 st = B.peel(r.a[1][1])
